@@ -208,7 +208,7 @@ class Disk:
                 return len(value), MODE_BINARY, filename, None
         elif type_value is str:
             filename, full_path = self.filename(key, value)
-            self._write(full_path, io.StringIO(value), 'x', 'UTF-8')
+            self._write(full_path, io.StringIO(value), 'x', 'UTF-8', '')
             size = op.getsize(full_path)
             return size, MODE_TEXT, filename, None
         elif read:
@@ -227,7 +227,9 @@ class Disk:
                 self._write(full_path, io.BytesIO(result), 'xb')
                 return len(result), MODE_PICKLE, filename, None
 
-    def _write(self, full_path, iterator, mode, encoding=None):
+    def _write(
+        self, full_path, iterator, mode, encoding=None, newline=None
+    ):
         full_dir, _ = op.split(full_path)
 
         for count in range(1, 11):
@@ -237,7 +239,9 @@ class Disk:
             try:
                 # Another cache may have deleted the directory before
                 # the file could be opened.
-                writer = open(full_path, mode, encoding=encoding)
+                writer = open(
+                    full_path, mode, encoding=encoding, newline=newline
+                )
             except OSError:
                 if count == 10:
                     # Give up after 10 tries to open the file.
@@ -274,7 +278,9 @@ class Disk:
                     return reader.read()
         elif mode == MODE_TEXT:
             full_path = op.join(self._directory, filename)
-            with open(full_path, 'r', encoding='UTF-8') as reader:
+            with open(
+                full_path, 'r', encoding='UTF-8', newline=''
+            ) as reader:
                 return reader.read()
         elif mode == MODE_PICKLE:
             if value is None:
